@@ -103,6 +103,11 @@ CLAIMED["C16"] = dict(
     note="Trusted: Lean kernel; PrimErrs (json, hmac, pyca verify raise only documented classes in-domain); model checked by differential. JSON-serialization dicts are assumed to have the documented shape. A Doc theorem for the JWE and JSON entry points is not yet proved (partial): they are covered by the model-vs-implementation class comparison and the fuzz oracle.",
     technique="Lean 4 proof (compositional exception-class analysis over the total Python-fragment model) + class differential + grammar/mutation fuzz oracle",
     design="7/C16")
+CLAIMED["C20"] = dict(
+    text="Lean 4: an interleaving semantics of API calls on the one piece of state a call may leave in a shared object (the lazily built key dict and its lazily assigned thumbprint kid): every call is a program of atomic actions, threads interleave arbitrarily (schedule = any list of thread indices, any number of threads and calls). Proved for ALL schedules, thread counts and call sequences: no call ever fails (c20_no_error), the key's state only grows empty -> built -> built+kid and a stored kid is never lost (c20_kid_monotone), every finished call returned what it returns in isolation up to the documented kid (c20_results), a kid is present once ensure_kid returned (c20_ensure_kid_post), sequential histories (c20_sequential); the pre-fix as_dict is shown racy by a concrete schedule (c20_prefix_as_dict_races). Frame: the set of statements in joserfc that write to an object reachable from a shared key, key set, registry, algorithm model or class/module attribute is regenerated from the AST on every run and kernel-decided to be exactly {dict_value's in-place update, ensure_kid's kid store} plus writes to per-call message objects (c20_footprint, c20_frame) - so the models of C01-C19, which are functions of their arguments only, lose nothing by having no shared state. Tie: a deterministic line-granular scheduler drives real threads through every schedule of two call sequences with <=1 (selected: <=2; thorough <=2 everywhere, 3 sampled) preemptions; each observed outcome must be in the reachable-outcome set computed by the Lean model for the same calls and satisfy the property directly; API pairs (sign/verify/encrypt/decrypt/jwt/key set/registry) under every single-preemption schedule; random call histories on shared objects vs fresh objects with deep snapshots of all shared objects; 8-32 thread stress at 1 us switch interval; per-call randomness (IV, epk, salt, wrapped CEK) pairwise distinct.",
+    note="Trusted: Lean kernel; extract.py's AST write-footprint analysis (syntactic: attribute/subscript stores and mutating method calls on non-local receivers); atomicity of single CPython dict operations under the GIL; pyca objects thread-safe. The interleaving theorems are about the abstract actions; the scheduler's line granularity and the stress runs are the (bounded) tie to real threads - finer-than-line switch points are only sampled by the stress runs. Free-threaded (no-GIL) CPython is out of scope.",
+    technique="Lean 4 proof (invariant by induction over arbitrary schedules; kernel-decided write-footprint frame) + deterministic schedule enumeration vs model reachability + isolation differential + stress",
+    design="7/C20")
 PENDING = {}
 
 
